@@ -23,7 +23,8 @@ BUDGET = {'quick': 30, 'thorough': 300}
 FLOORS = {
     'quick': {'orders': 2000, 'exhaustive_order_workbooks': 10, 'path:rect': 200, 'path:unbounded': 100,
               'path:list': 20, 'path:tuple': 20, 'path:generator': 20, 'path:sheetless': 60,
-              'path:repeat': 60, 'path:first_access_range': 40, 'element_compares': 15000},
+              'path:repeat': 60, 'path:first_access_range': 40, 'element_compares': 15000,
+              'cfg:xlsx-with-stale-stored-results': 8},
     'thorough': {'orders': 60000, 'exhaustive_order_workbooks': 400, 'path:unbounded': 4000,
                  'element_compares': 400000},
 }
@@ -76,10 +77,13 @@ def elements(result, h, w):
 
 
 class Book:
-    def __init__(self, ctx, spec, meta):
+    def __init__(self, ctx, spec, meta, factory=None, config='mem'):
         self.ctx, self.spec, self.meta = ctx, spec, meta
+        self.config = config
+        self.factory = factory or (lambda: wb.compile_mem(spec))
         self.addresses = wb.all_addresses(spec)
-        self.ref = wb.fresh_values(spec, self.addresses)
+        comp = self.factory()
+        self.ref = {a: wb.outcome(comp.evaluate, a) for a in self.addresses}
         self.failing = any(o[0] == 'x' for o in self.ref.values())
         self.found = []
         self.shape = wbgen.shape_signature(spec, meta)
@@ -94,7 +98,7 @@ class Book:
 
     # ---- orders
     def check_order(self, order):
-        comp = wb.compile_mem(self.spec)
+        comp = self.factory()
         self.ctx.count('orders')
         for a in order:
             got = wb.outcome(comp.evaluate, a)
@@ -109,7 +113,7 @@ class Book:
 
     def orders(self, rng, max_sampled):
         n = len(self.addresses)
-        if n <= 6:
+        if n <= 6 and self.config == 'mem':
             self.ctx.count('exhaustive_order_workbooks')
             for perm in itertools.permutations(self.addresses):
                 if not self.check_order(perm):
@@ -195,7 +199,7 @@ class Book:
         return plans
 
     def paths(self, rng, n_rects):
-        comp = wb.compile_mem(self.spec)
+        comp = self.factory()
         for a in self.addresses:
             wb.outcome(comp.evaluate, a)
         # repeat
@@ -211,12 +215,12 @@ class Book:
             self.compare_range(comp, sheet, text, c1, r1, c2, r2, tag)
         # the same paths as the first access of a fresh model (builds ranges before cells)
         for sheet, text, c1, r1, c2, r2, tag in rng.sample(plans, min(len(plans), 4)):
-            self.compare_range(wb.compile_mem(self.spec), sheet, text, c1, r1, c2, r2, tag, first=True)
+            self.compare_range(self.factory(), sheet, text, c1, r1, c2, r2, tag, first=True)
         # containers of addresses
         k = min(len(self.addresses), 4)
         for tag, make in (('list', list), ('tuple', tuple), ('generator', lambda x: (a for a in x))):
             pick = [rng.choice(self.addresses) for _ in range(k)]
-            for model in (comp, wb.compile_mem(self.spec)):
+            for model in (comp, self.factory()):
                 got = wb.outcome(model.evaluate, make(pick))
                 self.ctx.count('path:' + tag)
                 self.ctx.case(('path', self.shape, tag, tuple(pick), model is comp))
@@ -236,7 +240,7 @@ class Book:
             s, c = a.rsplit('!', 1)
             if s != active:
                 continue
-            for model in (comp, wb.compile_mem(self.spec)):
+            for model in (comp, self.factory()):
                 got = wb.outcome(model.evaluate, c)
                 self.ctx.count('path:sheetless')
                 self.ctx.count('element_compares')
@@ -325,8 +329,17 @@ CONTEXT_SPECS = [
 ]
 
 
+SHEET_ARRAY_SPECS = [
+    # array formulas on sheets whose names need care (a blank, a second sheet sharing a word with it)
+    {'sheets': [['Sheet1', {'A1': 10, 'B1': "=SUM('My Sheet'!C1:C3)+A1"}], ['My Sheet', {'A1': 1, 'A2': 2, 'A3': 3}]],
+     'names': {}, 'arrays': [['My Sheet', 'C1:C3', '=A1:A3*2']], 'calc': None},
+    {'sheets': [['Sheet1', {'A1': 10}], ['My Sheet', {'A1': 1, 'A2': 2, 'B1': 5}], ['Sheet', {'C1': 100, 'C2': 200}]],
+     'names': {}, 'arrays': [['My Sheet', 'C1:D2', '=A1:A2+B1']], 'calc': None},
+]
+
+
 def context_books(ctx, rng):
-    for spec in CONTEXT_SPECS:
+    for spec in CONTEXT_SPECS + SHEET_ARRAY_SPECS:
         members = wb.array_members(spec)
         meta = {'inputs': [], 'formulas': {a: {'form': 'cse', 'deps': []} for a in members}, 'order': []}
         for a, v in wb.spec_cells(spec).items():
@@ -336,6 +349,11 @@ def context_books(ctx, rng):
         ctx.count('directed:context_books')
         if book.failing:
             ctx.count('context_book_reference_fails')
+            bad = sorted(a for a, o in book.ref.items() if o[0] == 'x')
+            ctx.violation('directed-workbook-cell-raises',
+                          f'evaluate({bad[0]!r}) raises {book.ref[bad[0]][1]} in a workbook whose every cell can be '
+                          f'evaluated: {spec["sheets"]} {spec["arrays"]}', {'spec': spec, 'meta': meta,
+                                                                           'kind': 'path', 'path': bad[0], 'first': True})
             continue
         # all orders over the formula cells and two members (constants cannot matter)
         focus = [a for a in book.addresses if a in meta['formulas']][:6]
@@ -345,10 +363,51 @@ def context_books(ctx, rng):
         book.paths(rng, 4)
 
 
-def one_book(ctx, spec, meta, rng, max_sampled=120, n_rects=12, do_orders=True):
-    book = Book(ctx, spec, meta)
+def stale_xlsx_factory(ctx, spec, meta, rng):
+    """an .xlsx whose stored formula results are NOT what the formulas produce (a stale cache: manual
+    calculation mode, volatile functions).  Whatever pycel serves for a cell - the stored result or a
+    recalculation - it must be the same whichever way and in whichever order the cell is reached."""
+    from pycel import ExcelCompiler
+    fresh = wb.fresh_values(spec)
+    stored = {}
+    for a, o in fresh.items():
+        if o[0] != 'v' or o[1] is None or a not in meta['formulas']:
+            continue
+        v = o[1]
+        if rng.random() < 0.6:
+            v = (v + 1000) if isinstance(v, (int, float)) and not isinstance(v, bool) else (
+                f'{v}-stale' if isinstance(v, str) and not v.startswith('#') else v)
+        stored[a] = v
+    path = f'{ctx.tmpdir}/stale.xlsx'
+    wb.write_xlsx(spec, path, stored)
+    return lambda: ExcelCompiler(filename=path)
+
+
+def one_book(ctx, spec, meta, rng, max_sampled=120, n_rects=12, do_orders=True, config='mem'):
+    if config == 'xlsx-stale':
+        book = Book(ctx, spec, meta, stale_xlsx_factory(ctx, spec, meta, rng), config)
+        max_sampled = 40
+        ctx.count('cfg:xlsx-with-stale-stored-results')
+    else:
+        book = Book(ctx, spec, meta)
     if book.failing:
+        # the generator only uses implemented functions, so a cell that cannot be evaluated on its own is itself
+        # a disagreement as soon as another access path (a range containing it) returns a value
         ctx.count('skipped_workbooks_with_failing_cells')
+        comp = wb.compile_mem(spec)
+        for a, o in book.ref.items():
+            if o[0] != 'x':
+                continue
+            s_, c_ = a.rsplit('!', 1)
+            col, row = wb.split_coord(c_)
+            text = f'{wb.quote_sheet(s_)}!{wb.coord(col, row)}:{wb.coord(col + 1, row)}'
+            got = wb.outcome(comp.evaluate, text)
+            form = (meta['formulas'].get(a) or {}).get('form', '?')
+            if got[0] == 'v':
+                ctx.violation(f'cell-raises-but-range-evaluates/{form}',
+                              f'evaluate({a!r}) raises {o[1]} while evaluate({text!r}) = {got[1]!r}',
+                              {'spec': spec, 'meta': meta, 'kind': 'path', 'path': text, 'first': True})
+                break
         return
     ctx.count('workbooks')
     if do_orders:
@@ -376,8 +435,9 @@ def run(ctx):
                 spec, meta = wbgen.dag(rng, n_cells=rng.randint(3, 5), data_sheet=False, arrays=False,
                                        two_sheets=False)
         else:
-            spec, meta = wbgen.dag(rng, n_cells=rng.randint(5, 9))
-        one_book(ctx, spec, meta, rng)
+            spec, meta = wbgen.dag(rng, n_cells=rng.randint(5, 9), arrays=(i % 8 == 0) or None,
+                                   two_sheets=(i % 8 == 0) or None)
+        one_book(ctx, spec, meta, rng, config='xlsx-stale' if i % 5 == 0 else 'mem')
 
 
 def replay(ctx, case):
